@@ -332,7 +332,7 @@ def _extra(ctx, props):
 profiles.profile("pipeline", mode="hpc", fault_free=True, kind="world", gen=gen_pipeline, extra_monitors=_extra,
                  driver_cls=PipelineDriver, max_steps=80000, no_materialise=True)
 profiles.PROFILE_PROPS["pipeline"] = ["C15"]
-profiles.CHECKS["C15"] = {"profiles": [("pipeline", 1.0)], "quick": {"runs": 1600}, "thorough": {"runs": 100000}}
+profiles.CHECKS["C15"] = {"profiles": [("pipeline", 1.0)], "quick": {"runs": 2400}, "thorough": {"runs": 100000}}
 profiles.RULES["C15"] = ("pipelines of 1-4 stages (HPC and local stages mixed) built with PipelineManager.create_config_from_files and "
                          "submitted with jade pipeline submit; stage k+1 is started by whichever process completes stage k (usually a "
                          "compute node's try-submit-jobs) through the real jade pipeline submit-next-stage; concurrent user commands on "
